@@ -533,4 +533,59 @@ class GetMaxAdvance(_Sched):
         return N.replay_get_max_advance(m)
 
 
-CONTRACTS = [AdvanceProgress(), ScheduleStep(), NotifyDependencies(), GetMaxAdvance()]
+class AssertAsyncRequests(_Sched):
+    """MosaikRemote._assert_async_requests(src_sim, dest_sim): ScenarioError IFF dest_sim is not a successor
+    of src_sim OR async requests were not enabled for that connection; no effect"""
+    target = "mosaik.simmanager.MosaikRemote._assert_async_requests"
+    property_ids = ["C16"]
+    configure_small = None
+    configure_small2 = None
+
+    def make_args(self, mk):
+        M = mk.s.sched
+        return {"self": Opaque("MosaikRemote"), "src_sim": mk.const("src_sim", M.alg.Sim), "dest_sim": mk.const("dest_sim", M.alg.Sim)}
+
+    @property
+    def raises(self):
+        return {"ScenarioError": lambda A: Or(Not(self._M.SUd(A.src_sim, A.dest_sim)), Not(self._M.SWd(A.src_sim, A.dest_sim)))}
+
+    def ensures(self, A, result):
+        return frame(self._M, self._h0, self.cur(), {})
+
+    def native_search(self, budget):
+        for su in (False, True):
+            for sw in (False, True):
+                yield {"successor": su, "async": sw}
+
+    def native_call(self, m):
+        if "successor" not in m:
+            return True, "symbolic counter-models are not replayed (the native search is)"
+        import mosaik
+        from mosaik.exceptions import ScenarioError
+        from mosaik.simmanager import SimRunner, MosaikRemote
+        from mosaik.tiered_time import TieredInterval
+        from contracts.scheduler_native import _StubProxy
+        w = mosaik.World({}, skip_greetings=True)
+        try:
+            a, b = SimRunner("A", _StubProxy("hybrid")), SimRunner("B", _StubProxy("hybrid"))
+            if m["successor"]:
+                a.successors[b] = TieredInterval(0)
+            if m["async"]:
+                a.successors_to_wait_for[b] = TieredInterval(0)
+            try:
+                MosaikRemote(w, "B")._assert_async_requests(a, b)
+                raised = False
+            except ScenarioError:
+                raised = True
+            expect = not (m["successor"] and m["async"])
+            return raised == expect, f"_assert_async_requests with successor={m['successor']}, async enabled={m['async']}: raised={raised}, expected {expect}"
+        finally:
+            w.loop.close()
+
+
+try:
+    from pyvc.values import Opaque
+except Exception:  # pragma: no cover
+    Opaque = None
+
+CONTRACTS = [AdvanceProgress(), ScheduleStep(), NotifyDependencies(), GetMaxAdvance(), AssertAsyncRequests()]
